@@ -56,3 +56,12 @@ bool use_ext(const unsigned char *p, unsigned char n)
   const char *o = 0;
   return handle_ext(0xC8, &o, &p, &n) && o;
 }
+
+/* R-C09-1 width: a getc result kept in an int */
+bool skip_header(FILE *f)
+{
+  int c;
+  if ((c = getc(f)) == EOF)
+    return premature_eof(f);
+  return c == 0x0D;
+}
